@@ -38,6 +38,13 @@ def run(tier, seed, faults=()):
         c = fg.cfg_constants(g, "nonlinear", 10, max_sources=2, off=("rejects",), faults=faults, cons=("c1", "c2", "c3"), obs_filter=("ndf", "gof", "chi2p"))
         cm.run_replay_stage(rep, "GenFCRun", cm.gen_cfg(c), _replay, "%s: simulate" % ftype, simulate=(10 if tier == "quick" else 150, 10, seed + 1),
                             extra_files=mod, max_histories=1200 if tier == "quick" else 30000, seed=seed, chunk=50)
+    # multi-fits: ndf, goodness of fit and chi2 probability (MultiFit.tla histories; the final probe reads all of them)
+    from ..adapters.multifit import replay_walk as multi_replay
+    from .c11 import constants as mconst
+    for pat in ("shared", "chain"):
+        cm.run_replay_stage(rep, "GenMultiFit", cm.gen_cfg(mconst(pat, 3, off=("Read", "SetPar"), faults=faults)), multi_replay,
+                            "multi-fit %s: all histories of fix / release / constraints / shared sources / fit, 3 steps" % pat,
+                            max_histories=400 if tier == "quick" else 6000, seed=seed, chunk=10)
     rep.assumptions += ["goodness of fit and chi2 probability compared at 1e-6 relative with numpy/scipy evaluations of the documented formulas",
                         "UnbinnedFit documents no goodness of fit (returns None): only ndf is checked there"]
     rep.coverage["trusted_base"] = ["TLC", "harness/evaluator.py", "scipy.stats.chi2.sf"]
